@@ -1,138 +1,338 @@
-/-! Model/MinHashVec.lean + Model/MinHashTree.lean (prototype) — agreed with the real structs on 60 910 op lines -/
+import Sourmash.Model.Md5
+/-!
+Model/MinHash.lean — executable models of `KmerMinHash` (`MH.Vec`) and `KmerMinHashBTree` (`MH.Tree`)
+as they are in `/repo/src/core/src/sketch/minhash.rs` **now** (after the repairs b305542, a042a61,
+cfc6bfc, 07ac85a), branch for branch.
+
+* `Vec<u64>` / `BTreeSet<u64>` are `List Nat` (the set kept strictly increasing), `BTreeMap<u64,u64>`
+  is an association list in key order, `Option<…>` abundances stay `Option`.
+* `binary_search` on a sorted vector is `pos` (number of smaller elements) plus the test
+  `mins[pos]? = some h`.
+* `md5sum: Mutex<Option<String>>` is `md5 : Option (List UInt8)` (the 16 digest bytes; the string the
+  code stores is their lower-case hex).  `reset` is `reset_md5sum`, and it is called exactly where the
+  code calls it.
+* `u64` abundances are `Nat` (the real additions overflow at 2^64; generators stay below).
+
+Used by C01 (sample refinement) and C13 (md5 cache invariant).  Names `MH.Vec`, `MH.Tree`,
+`.add/.remove/.clear/.merge/.md5sum` are a contract with other properties' drivers.
+-/
 namespace MH
 
-/-! Vector-backed sketch, mirroring KmerMinHash branch for branch (md5 cache as a "stale" flag model:
-    cache = none | some (digest-of-which-mins) — here we store the mins the cached digest was computed from). -/
+abbrev Digest := List UInt8
+
+/-! ### list primitives shared by both models -/
+
+/-- `binary_search` insertion point on a sorted vector: the number of elements smaller than `h` -/
+def pos : List Nat → Nat → Nat
+  | [], _ => 0
+  | k :: t, h => if k < h then pos t h + 1 else 0
+
+/-- `Vec::insert(i, x)` -/
+def insertAt : List α → Nat → α → List α
+  | l, 0, x => x :: l
+  | [], _ + 1, x => [x]
+  | y :: t, i + 1, x => y :: insertAt t i x
+
+/-- `Vec::remove(i)` -/
+def removeAt : List α → Nat → List α
+  | [], _ => []
+  | _ :: t, 0 => t
+  | y :: t, i + 1 => y :: removeAt t i
+
+/-- `v[i] += a` -/
+def bump : List Nat → Nat → Nat → List Nat
+  | [], _, _ => []
+  | v :: t, 0, a => (v + a) :: t
+  | v :: t, i + 1, a => v :: bump t i a
+
+/-- `v[i] = a` -/
+def setAt : List Nat → Nat → Nat → List Nat
+  | [], _, _ => []
+  | _ :: t, 0, a => a :: t
+  | v :: t, i + 1, a => v :: setAt t i a
+
+/-! ### `KmerMinHash` -/
+
 structure Vec where
   num : Nat
   maxHash : Nat
+  ksize : Nat := 21
   mins : List Nat := []
   abunds : Option (List Nat) := none
-  md5 : Option (List Nat) := none        -- mins snapshot the cached digest was computed from
+  md5 : Option Digest := none
 
-def pos (mins : List Nat) (h : Nat) : Nat := (mins.takeWhile (· < h)).length
-def insertAt (l : List α) (i : Nat) (x : α) : List α := l.take i ++ x :: l.drop i
-def removeAt (l : List α) (i : Nat) : List α := l.take i ++ l.drop (i+1)
+/-- `KmerMinHash::new(scaled, ksize, _, _, track_abundance, num)` with `max_hash_for_scaled(scaled)` already applied -/
+def Vec.new (num maxHash : Nat) (track : Bool) (ksize : Nat := 21) : Vec :=
+  { num := num, maxHash := maxHash, ksize := ksize, abunds := if track then some [] else none }
 
 def Vec.reset (s : Vec) : Vec := { s with md5 := none }
 
+/-- `remove_hash`: binary search; when found remove from both vectors and reset -/
 def Vec.remove (s : Vec) (h : Nat) : Vec :=
   let p := pos s.mins h
   if s.mins[p]? = some h then
     ({ s with mins := removeAt s.mins p, abunds := s.abunds.map (removeAt · p) }).reset
   else s
 
+/-- `remove_many` / `remove_from`: a loop of `remove_hash` -/
+def Vec.removeMany (s : Vec) (hs : List Nat) : Vec := hs.foldl Vec.remove s
+
+/-- `add_hash_with_abundance` -/
 def Vec.add (s : Vec) (h a : Nat) : Vec :=
+  -- (1) above the ceiling of a scaled sketch
   if h > s.maxHash && s.maxHash != 0 then s else
+  -- (2) "it will always be empty"
   if s.num == 0 && s.maxHash == 0 then s else
+  -- (3) abundance 0 removes
   if a == 0 then s.remove h else
+  -- (4) empty: push, reset (unconditionally since a042a61)
   if s.mins.isEmpty then
-    let s' := { s with mins := [h], abunds := s.abunds.map (fun _ => [a]) }
-    if s.abunds.isSome then s'.reset else s'
+    ({ s with mins := s.mins ++ [h], abunds := s.abunds.map (· ++ [a]) }).reset
   else
     let cur := s.mins.getLast?.getD 0
+    -- (5) the "good hash" guard
     if h ≤ s.maxHash || h ≤ cur || s.mins.length < s.num then
       let p := pos s.mins h
       if p == s.mins.length then
+        -- at end: push, reset
         ({ s with mins := s.mins ++ [h], abunds := s.abunds.map (· ++ [a]) }).reset
       else if s.mins[p]? != some h then
+        -- not found: insert, pop when over `num`, reset
         let m := insertAt s.mins p h
         let ab := s.abunds.map (insertAt · p a)
         if s.num != 0 && m.length > s.num then
           ({ s with mins := m.dropLast, abunds := ab.map List.dropLast }).reset
         else ({ s with mins := m, abunds := ab }).reset
       else
-        { s with abunds := s.abunds.map (fun l => l.take p ++ (match l.drop p with | [] => [] | v :: t => (v + a) :: t)) }
+        -- found: increment the abundance, no reset
+        { s with abunds := s.abunds.map (bump · p a) }
     else s
 
-def Vec.clear (s : Vec) : Vec := { s with mins := [], abunds := s.abunds.map (fun _ => []) }
+/-- `set_hash_with_abundance`: found → overwrite the abundance (nothing when untracked); else `add` -/
+def Vec.set (s : Vec) (h a : Nat) : Vec :=
+  let p := pos s.mins h
+  if s.mins[p]? = some h then { s with abunds := s.abunds.map (setAt · p a) }
+  else s.add h a
 
-/-- two-pointer merge of (key, abundance?) lists as in the Rust loop; abundances only if both tracked -/
+/-- `clear` (resets the cache since b305542) -/
+def Vec.clear (s : Vec) : Vec :=
+  ({ s with mins := [], abunds := s.abunds.map (fun _ => []) }).reset
+
+/-- the two-pointer walk of `merge` over the hashes -/
+def mergeMins : List Nat → List Nat → List Nat
+  | [], o => o
+  | s, [] => s
+  | x :: s, y :: o =>
+    if y < x then y :: mergeMins (x :: s) o
+    else if y = x then x :: mergeMins s o
+    else x :: mergeMins s (y :: o)
+termination_by s o => s.length + o.length
+
+/-- the same walk carrying the abundance iterators (both operands tracked) -/
 def mergeLists : List (Nat × Nat) → List (Nat × Nat) → List (Nat × Nat)
   | [], o => o
   | s, [] => s
   | (x, a) :: s, (y, b) :: o =>
     if y < x then (y, b) :: mergeLists ((x, a) :: s) o
-    else if y == x then (x, a + b) :: mergeLists s o
+    else if y = x then (x, a + b) :: mergeLists s o
     else (x, a) :: mergeLists s ((y, b) :: o)
 termination_by s o => s.length + o.length
 
+/-- `merge` after `check_compatible` succeeded: abundances only when both operands track them;
+    truncate to `self.num` when it is non-zero (`other.num` is never consulted); reset. -/
 def Vec.merge (s o : Vec) : Vec :=
-  let both := s.abunds.isSome && o.abunds.isSome
-  let sa := s.mins.zip (s.abunds.getD (s.mins.map (fun _ => 0)))
-  let oa := o.mins.zip (o.abunds.getD (o.mins.map (fun _ => 0)))
-  let m := mergeLists sa oa
-  let m := if m.length > s.num && s.num != 0 then m.take s.num else m
-  ({ s with mins := m.map (fun (kv : Nat × Nat) => kv.1), abunds := if both then some (m.map (fun (kv : Nat × Nat) => kv.2)) else none }).reset
+  let merged := mergeMins s.mins o.mins
+  let mergedAb : Option (List Nat) := match s.abunds, o.abunds with
+    | some sa, some oa => some ((mergeLists (s.mins.zip sa) (o.mins.zip oa)).map Prod.snd)
+    | _, _ => none
+  if merged.length > s.num && s.num != 0 then
+    ({ s with mins := merged.take s.num, abunds := mergedAb.map (List.take s.num) }).reset
+  else ({ s with mins := merged, abunds := mergedAb }).reset
 
-def Vec.md5sum (s : Vec) : List Nat × Vec :=
+/-- `check_compatible` as far as the model's fields go (hash function and seed are equal in every
+    history the harness builds): ksize first, then max_hash; `num` is not compared. -/
+def compatErr (k1 m1 k2 m2 : Nat) : Option String :=
+  if k1 != k2 then some "MismatchKSizes" else if m1 != m2 then some "MismatchScaled" else none
+
+def Vec.mergeChecked (s o : Vec) : Except String Vec :=
+  match compatErr s.ksize s.maxHash o.ksize o.maxHash with
+  | some e => .error e
+  | none => .ok (s.merge o)
+
+/-- `enable_abundance`: refused on a non-empty sketch -/
+def Vec.enableAbundance (s : Vec) : Except String Vec :=
+  if !s.mins.isEmpty then .error "NonEmptyMinHash" else .ok { s with abunds := some [] }
+
+def Vec.disableAbundance (s : Vec) : Vec := { s with abunds := none }
+
+/-- `merge_join_by(..).filter_map(Both)` of `inflate`: hashes of `self` that `from` also holds, with `from`'s abundance -/
+def inflateJoin : List Nat → List (Nat × Nat) → List (Nat × Nat)
+  | [], _ => []
+  | _, [] => []
+  | x :: s, (y, b) :: o =>
+    if x < y then inflateJoin s ((y, b) :: o)
+    else if x = y then (x, b) :: inflateJoin s o
+    else inflateJoin (x :: s) o
+termination_by s o => s.length + o.length
+
+/-- `inflate(abunds_from)` after `check_compatible`: error when the source is untracked, else replace
+    hashes and abundances by the join, reset -/
+def Vec.inflate (s o : Vec) : Except String Vec :=
+  match o.abunds with
+  | none => .error "NeedsAbundanceTracking"
+  | some oa =>
+    let j := inflateJoin s.mins (o.mins.zip oa)
+    .ok ({ s with mins := j.map Prod.fst, abunds := some (j.map Prod.snd) }).reset
+
+/-- the digest of the current contents -/
+def Vec.digest (s : Vec) : Digest := Md5.digest s.ksize s.mins
+
+/-- `md5sum`: compute and store when the cache is empty, else return the cached value -/
+def Vec.md5sum (s : Vec) : Digest × Vec :=
   match s.md5 with
   | some d => (d, s)
-  | none => (s.mins, { s with md5 := some s.mins })
+  | none => (s.digest, { s with md5 := some s.digest })
 
-/-! Tree-backed sketch -/
+/-- `Clone`: `(copy, self after the call)`; the copy stores `Some(self.md5sum())` -/
+def Vec.clone (s : Vec) : Vec × Vec :=
+  let (d, s') := s.md5sum
+  ({ s with md5 := some d }, s')
+
+/-- `PartialEq`: md5 equality (fills both caches) -/
+def Vec.eq (s o : Vec) : Bool × Vec × Vec :=
+  let (d1, s') := s.md5sum
+  let (d2, o') := o.md5sum
+  (d1 == d2, s', o')
+
+/-! ### `KmerMinHashBTree` -/
+
 structure Tree where
   num : Nat
   maxHash : Nat
-  mins : List Nat := []                       -- strictly increasing
-  abunds : Option (List (Nat × Nat)) := none   -- BTreeMap in key order
+  ksize : Nat := 21
+  mins : List Nat := []                        -- BTreeSet, strictly increasing
+  abunds : Option (List (Nat × Nat)) := none    -- BTreeMap in key order
   currentMax : Nat := 0
-  md5 : Option (List Nat) := none
+  md5 : Option Digest := none
 
+def Tree.new (num maxHash : Nat) (track : Bool) (ksize : Nat := 21) : Tree :=
+  { num := num, maxHash := maxHash, ksize := ksize, abunds := if track then some [] else none }
+
+/-- `BTreeSet::insert`: the new set and whether the value was new -/
 def insSet : List Nat → Nat → List Nat × Bool
   | [], h => ([h], true)
-  | k :: t, h => if h < k then (h :: k :: t, true) else if h == k then (k :: t, false) else
-      let (t', b) := insSet t h; (k :: t', b)
+  | k :: t, h =>
+    if h < k then (h :: k :: t, true)
+    else if h = k then (k :: t, false)
+    else let r := insSet t h; (k :: r.1, r.2)
 
+/-- `*map.entry(h).or_insert(0) += a` -/
 def mapAdd : List (Nat × Nat) → Nat → Nat → List (Nat × Nat)
   | [], h, a => [(h, a)]
-  | (k, v) :: t, h, a => if h < k then (h, a) :: (k, v) :: t else if h == k then (k, v + a) :: t else (k, v) :: mapAdd t h a
+  | (k, v) :: t, h, a =>
+    if h < k then (h, a) :: (k, v) :: t
+    else if h = k then (k, v + a) :: t
+    else (k, v) :: mapAdd t h a
+
+/-- `map.get(h).unwrap_or(&0)` -/
+def mapGet (m : List (Nat × Nat)) (h : Nat) : Nat :=
+  match m.find? (fun kv => kv.1 == h) with
+  | some kv => kv.2
+  | none => 0
+
+/-- `*set.iter().next_back().unwrap_or(&0)` -/
+def lastOr0 (l : List Nat) : Nat := l.getLast?.getD 0
 
 def Tree.reset (s : Tree) : Tree := { s with md5 := none }
 
+/-- `add_hash_with_abundance` -/
 def Tree.add (s : Tree) (h a : Nat) : Tree :=
   if h > s.maxHash && s.maxHash != 0 then s else
   if s.num == 0 && s.maxHash == 0 then s else
+  -- abundance 0: "well, don't add it"
   if a == 0 then s else
   if s.mins.isEmpty then
-    ({ s with mins := [h], abunds := s.abunds.map (fun m => mapAdd m h a), currentMax := h }).reset
+    ({ s with mins := (insSet s.mins h).1, abunds := s.abunds.map (fun m => mapAdd m h a), currentMax := h }).reset
   else if h ≤ s.maxHash || h ≤ s.currentMax || s.mins.length < s.num then
-    let (m, isNew) := insSet s.mins h
-    let s1 := if isNew then ({ s with mins := m, currentMax := if h > s.currentMax then h else s.currentMax }).reset else s
-    let s2 := { s1 with abunds := s1.abunds.map (fun mp => mapAdd mp h a) }
+    let r := insSet s.mins h
+    -- `if self.mins.insert(hash) { reset; if hash > current_max { current_max = hash } }`
+    let s1 := if r.2 then
+        ({ s with mins := r.1, currentMax := if h > s.currentMax then h else s.currentMax }).reset
+      else s
+    let s2 := { s1 with abunds := s1.abunds.map (fun m => mapAdd m h a) }
+    -- too big now: remove the largest and its abundance, reset, recompute current_max
     if s2.num != 0 && s2.mins.length > s2.num then
-      let last := s2.mins.getLast?.getD 0
-      let m' := s2.mins.dropLast
-      ({ s2 with mins := m', abunds := s2.abunds.map (fun (mp : List (Nat × Nat)) => mp.filter (fun kv => kv.1 != last)),
-                 currentMax := m'.getLast?.getD 0 }).reset
+      let last := lastOr0 s2.mins
+      let m' := s2.mins.filter (· != last)
+      ({ s2 with mins := m',
+                 abunds := s2.abunds.map (fun (mp : List (Nat × Nat)) => mp.filter (fun kv => kv.1 != last)),
+                 currentMax := lastOr0 m' }).reset
     else s2
   else s
 
+/-- `remove_hash` -/
 def Tree.remove (s : Tree) (h : Nat) : Tree :=
   let s1 := if s.mins.contains h then
-      ({ s with mins := s.mins.filter (· != h), abunds := s.abunds.map (fun (mp : List (Nat × Nat)) => mp.filter (fun kv => kv.1 != h)) }).reset
+      ({ s with mins := s.mins.filter (· != h),
+                abunds := s.abunds.map (fun (mp : List (Nat × Nat)) => mp.filter (fun kv => kv.1 != h)) }).reset
     else s
-  if h == s1.currentMax then { s1 with currentMax := s1.mins.getLast?.getD 0 } else s1
+  if h == s1.currentMax then { s1 with currentMax := lastOr0 s1.mins } else s1
 
-def Tree.clear (s : Tree) : Tree := { s with mins := [], abunds := s.abunds.map (fun _ => []), currentMax := 0 }
+def Tree.removeMany (s : Tree) (hs : List Nat) : Tree := hs.foldl Tree.remove s
 
+def Tree.clear (s : Tree) : Tree :=
+  ({ s with mins := [], abunds := s.abunds.map (fun _ => []), currentMax := 0 }).reset
+
+/-- `BTreeSet::union` (an ordered merge without duplicates) -/
 def unionSorted : List Nat → List Nat → List Nat
   | [], o => o
   | s, [] => s
-  | x :: s, y :: o => if y < x then y :: unionSorted (x :: s) o else if y == x then x :: unionSorted s o else x :: unionSorted s (y :: o)
+  | x :: s, y :: o =>
+    if y < x then y :: unionSorted (x :: s) o
+    else if y = x then x :: unionSorted s o
+    else x :: unionSorted s (y :: o)
 termination_by s o => s.length + o.length
 
+/-- `merge` after `check_compatible`: `union.take(num or ∞)`; abundances rebuilt when both operands
+    track them, dropped when only `self` does (07ac85a); `current_max` := largest hash (cfc6bfc); reset. -/
 def Tree.merge (s o : Tree) : Tree :=
   let u := unionSorted s.mins o.mins
   let u := if s.num == 0 then u else u.take s.num
-  let ab := match s.abunds, o.abunds with
-    | some a, some b => some (u.map (fun h => (h, ((a.find? (·.1 == h)).map (·.2)).getD 0 + ((b.find? (·.1 == h)).map (·.2)).getD 0)))
-    | x, _ => x
-  ({ s with mins := u, abunds := ab }).reset
+  let ab := match s.abunds with
+    | some a =>
+      match o.abunds with
+      | some b => some (u.map (fun h => (h, mapGet a h + mapGet b h)))
+      | none => none
+    | none => none
+  ({ s with mins := u, abunds := ab, currentMax := lastOr0 u }).reset
 
-def Tree.md5sum (s : Tree) : List Nat × Tree :=
+def Tree.mergeChecked (s o : Tree) : Except String Tree :=
+  match compatErr s.ksize s.maxHash o.ksize o.maxHash with
+  | some e => .error e
+  | none => .ok (s.merge o)
+
+def Tree.enableAbundance (s : Tree) : Except String Tree :=
+  if !s.mins.isEmpty then .error "NonEmptyMinHash" else .ok { s with abunds := some [] }
+
+def Tree.disableAbundance (s : Tree) : Tree := { s with abunds := none }
+
+def Tree.digest (s : Tree) : Digest := Md5.digest s.ksize s.mins
+
+def Tree.md5sum (s : Tree) : Digest × Tree :=
   match s.md5 with
   | some d => (d, s)
-  | none => (s.mins, { s with md5 := some s.mins })
+  | none => (s.digest, { s with md5 := some s.digest })
+
+def Tree.clone (s : Tree) : Tree × Tree :=
+  let (d, s') := s.md5sum
+  ({ s with md5 := some d }, s')
+
+def Tree.eq (s o : Tree) : Bool × Tree × Tree :=
+  let (d1, s') := s.md5sum
+  let (d2, o') := o.md5sum
+  (d1 == d2, s', o')
+
+/-- `abunds()`: the map's values in key order -/
+def Tree.abundVals (s : Tree) : Option (List Nat) := s.abunds.map (fun m => m.map Prod.snd)
 
 end MH
